@@ -92,8 +92,22 @@ def close(a, b):
 def detector_for(name):
     from ..zoo import detector_specs
 
+    from skchange.costs import GaussianVarCost, L2Cost
+
     cls, plist = detector_specs()[name]
-    return [(cls, params) for params in plist[:2]]
+    out = [(cls, params) for params in plist[:2]]
+    # fixed, NON-INTEGER scorer parameters: an integer-typed input must not truncate them
+    extra = {"PELT": dict(cost=L2Cost(param=0.5), min_segment_length=2, penalty_scale=0.3),
+             "CAPA": dict(collective_saving=L2Cost(param=0.5), point_saving=L2Cost(param=0.25), min_segment_length=2, max_segment_length=8,
+                          collective_penalty_scale=0.3, point_penalty_scale=0.3),
+             "MVCAPA": dict(collective_saving=GaussianVarCost(param=(0.5, 1.5)), min_segment_length=2, max_segment_length=8,
+                            collective_penalty_scale=0.3, point_penalty_scale=0.3),
+             "MovingWindow": dict(change_score=L2Cost(param=0.5), bandwidth=3, threshold_scale=0.5),
+             "CircularBinarySegmentation": dict(anomaly_score=GaussianVarCost(param=(0.5, 1.5)), min_segment_length=2, max_interval_length=10,
+                                                threshold_scale=0.5)}
+    if name in extra:
+        out.append((cls, extra[name]))
+    return out
 
 
 def replay_case(case):
@@ -157,6 +171,10 @@ def scorer_cases():
     from skchange.costs import GaussianCovCost, GaussianVarCost, L2Cost
 
     return [("L2Cost()", lambda: L2Cost(), [[0, 5], [3, 12]]), ("L2Cost(1)", lambda: L2Cost(param=1.0), [[0, 5], [3, 12]]),
+            ("L2Cost(0.5)", lambda: L2Cost(param=0.5), [[0, 5], [3, 12]]),
+            ("GaussianVarCost((0.5,1.5))", lambda: GaussianVarCost(param=(0.5, 1.5)), [[0, 5], [3, 12]]),
+            ("GaussianCovCost((0.5,1.5))", lambda: GaussianCovCost(param=(0.5, 1.5)), [[0, 7], [3, 14]]),
+            ("Saving(L2Cost(0.5))", lambda: Saving(L2Cost(param=0.5)), [[0, 5]]),
             ("GaussianVarCost()", lambda: GaussianVarCost(), [[0, 5], [3, 12]]), ("GaussianCovCost()", lambda: GaussianCovCost(), [[0, 7], [3, 14]]),
             ("CUSUM()", lambda: CUSUM(), [[0, 3, 9], [2, 8, 20]]), ("ChangeScore(L2Cost())", lambda: ChangeScore(L2Cost()), [[0, 3, 9]]),
             ("L2Saving()", lambda: L2Saving(), [[0, 5], [3, 12]]), ("Saving(L2Cost(0))", lambda: Saving(L2Cost(param=0.0)), [[0, 5]]),
@@ -193,7 +211,7 @@ def run(tier: str) -> int:
     chk.rule = ("the full product 7 detectors x 5 entry points x {2-D array, 1-D array, Series, DataFrame} x {float64, int64} x "
                 "{RangeIndex 0.., offset, stepped, DatetimeIndex, PeriodIndex} x {default, string columns} x p in {1,2} x "
                 "{integer, half-integer values} (2775 grid points from TLC, exhaustive), two parameter sets per detector; "
-                "plus 10 scorers x the representation grid.  Non-trivial = the representation differs from the canonical "
+                "plus 14 scorers (incl. fixed non-integer parameters) x the representation grid.  Non-trivial = the representation differs from the canonical "
                 "one in container, dtype, index or columns; distinct grid points.")
     chk.assumptions = ["TLC/SANY and the Json module", "for `update` the canonical run uses the same index labels (update is defined "
                        "through index labels); arrays are frames with the default index of the piece passed in",
